@@ -4,5 +4,5 @@ From AHK Require Import Lib.Res Lib.ByteStr Model.Pdu.
 Separate Extraction Z.of_N Z.to_N N.of_nat N.to_nat
   ble_encode ble_write read_pdu acc_reassemble open_seq
   seal_plain open_plain toy_seal toy_open
-  ble_session_write det_fs att_budget coap_write_batch
+  ble_loop demo_responder ble_session_write det_fs att_budget coap_write_batch coap_read_exit
   coap_encode_all coap_decode_all coap_exit_all coap_exit_errors coap_acc_parse.
